@@ -270,7 +270,14 @@ Definition step (env : tenv) (st : tstate) (c : call) : tstate * option (N * N) 
       else
         (* `comp_layout.size - self.latest_offset`: unchecked in the source *)
         let '(st1, l) := padding_field st (size - latest_offset st, 0) in
-        (st1, Some l)       (* NB: latest_offset is NOT advanced *)
+        (* since the fix of the double tail padding (add_tail_padding advances latest_offset): the tail is accounted for,
+           pad_struct has nothing left to add *)
+        ({| latest_offset := size;
+            padding_count := padding_count st1;
+            latest_field_layout := latest_field_layout st1;
+            max_field_align := max_field_align st1;
+            last_field_was_bitfield := last_field_was_bitfield st1;
+            last_field_was_flexible_array := last_field_was_flexible_array st1 |}, Some l)
   | PadStruct size align =>
       if size <? latest_offset st then (st, None)
       else
